@@ -214,7 +214,7 @@ WHEN_FORMS = {
     "cond-sample": lambda e: e + [_when("sample(0, 0.5)", [COUNT])],
     "cond-pre": lambda e: e + [_when("pre(n) < 3 and b", [COUNT])],
     "terminate": lambda e: e + [_when("h < -5", ['terminate("below ground & <lost>");']), _when("h < 0", [COUNT])],
-    "assert": lambda e: e[:2] + ['assert(h > -1, "fell through");'] + e[2:] + [_when("h < 0", [COUNT])],
+    "assert": lambda e: e[:2] + ['assert(h > -1, " fell <through> & ");'] + e[2:] + [_when("h < 0", [COUNT])],
     "assert-only": lambda e: e + ['assert(h > -1, "fell through");', "assert(v < 100, \"fast\");"],
 }
 WHEN_QUICK_SKIP = ("two-same", "assert-only")
@@ -617,8 +617,10 @@ def main():
                      f"{len(syms)} + {len(symx)} variable declarations (Real/Integer/Boolean/String x continuous/discrete/parameter/constant x start in none/literal/negative literal/reference/expression "
                      "x value in the same kinds x fixed absent/true/false, modifier order, min/max/nominal present, long literals); "
                      f"{len(structs)} whole models: {len(SECTION_LAYOUTS)} layouts of equation / initial equation sections x {len(WHEN_FORMS)} when-equation forms (equations and reinit in the body, "
-                     "several when-equations, position among the equations, compound / Boolean / sample conditions, equation-level assert, elsewhen) x instantiation as top-level model / sub-model "
-                     "once / twice with modifications / base class / class in a package, plus sub-models whose parameter values are modified between literal and expression; "
+                     "several when-equations, position among the equations, compound / negated / Boolean / sample / pre conditions, equation-level assert and terminate with string arguments, elsewhen) "
+                     "x instantiation as top-level model / sub-model once / twice with modifications / base class / class in a package / sub-model of a sub-model (quick: every layout x form at top level, "
+                     "the other instantiations on every second combination), plus a connector circuit, input/output/final/inner prefixes, user functions inside when-equations and initial equations, "
+                     "variables named like the XML vocabulary, declaration equations only, and sub-models whose parameter values are modified between literal and expression; "
                      "every model generated twice from the same parsed tree")
     rep.assumptions += ["the flat model is a fresh parse + tree.flatten of the same text", "meaning comparison uses the reference semantics vk/smt/ast2z3.py; elementary functions and "
                         "pre/edge/sample/noEvent/smooth/delay uninterpreted",
